@@ -254,3 +254,29 @@ def colour_collection_table(index):
 
 from pyvc.units import TableUnit
 TABLES = list(globals().get("TABLES", [])) + [TableUnit("colour_collection_covers_every_colour_field", colour_collection_table)]
+
+
+# ---- font table: a function without inputs, evaluated once on the real code (complete: there is nothing to quantify over) ----------
+def font_table_facts(index):
+    import re
+    syn = index.real_module("rtflite.rtf.syntax").RTFSyntaxGenerator
+    row = index.real_module("rtflite.row")
+    s = syn.generate_font_table()
+    ft = row.Utils._font_type()
+    from contracts.readback import check_lexical
+    depth, low = 0, 0
+    for ch in s:
+        depth += (ch == "{") - (ch == "}")
+        low = min(low, depth)
+    yield "font_table_is_one_balanced_ascii_group", depth == 0 and low >= 0 and s.startswith("{\\fonttbl") and all(ord(c) < 128 for c in s), s[:60]
+    entries = re.findall(r"\{\\f(\d+)([^{};]*?) ([^{};]+);\}", s)
+    nums = [int(e[0]) for e in entries]
+    yield "entries_are_f0_to_f9_once_each_in_order", nums == list(range(10)), str(nums)
+    types = list(ft["type"])
+    yield "font_numbers_accepted_at_construction_are_1_to_10", types == list(range(1, 11)), str(types)
+    for k, (num, _, name) in enumerate(entries):
+        want = ft["name"][k] if k < len(ft["name"]) else None
+        yield f"entry_f{k}_is_the_font_requested_as_number_{k + 1}", name == want, f"table names {name!r}, font {k + 1} is {want!r}"
+
+
+TABLES = TABLES + [TableUnit("font_table", font_table_facts)]
